@@ -93,54 +93,4 @@ def judgeShared (_payload impl : String) : Verdict :=
   | _ => { corr := false, implSpec := false, modelSpec := true, tags := [], nontrivial := true, cls := "no-observation",
            model := "-", spec := "every concurrent evaluation equals that of a fresh copy" }
 
-/-- the tree with the redaction marker at the path (keys `#..`, indices), where the path is in the tree; the tree itself otherwise -/
-partial def markAt (v : Sx) : List Sx → Sx
-  | [] => .list [.atom "s", Sx.ofString "[REDACTED]"]
-  | .atom k :: ks =>
-    if k.startsWith "#" then
-      match v with
-      | .list (.atom "o" :: kvs) => .list (.atom "o" :: kvs.map fun
-          | .list [.atom k', x] => if k' == k then .list [.atom k', markAt x ks] else .list [.atom k', x]
-          | o => o)
-      | o => o
-    else match v, k.toNat? with
-      | .list (.atom "a" :: xs), some i => .list (.atom "a" :: xs.mapIdx fun j x => if j == i then markAt x ks else x)
-      | o, _ => o
-  | _ :: _ => v
-
-partial def hasPath (v : Sx) : List Sx → Bool
-  | [] => true
-  | .atom k :: ks =>
-    if k.startsWith "#" then
-      match v with
-      | .list (.atom "o" :: kvs) => kvs.any fun
-          | .list [.atom k', x] => k' == k && hasPath x ks
-          | _ => false
-      | _ => false
-    else match v, k.toNat? with
-      | .list (.atom "a" :: xs), some i => (xs[i]?.map (hasPath · ks)).getD false
-      | _, _ => false
-  | _ :: _ => false
-
-/-- kfl.redactxml (C15): redaction through an xml() hop, the document read before and after by the XML reader:
-    the marker at the path and everything else as it was; the declaration kept; the target's text gone; a path
-    that is not in the document changes nothing -/
-def judgeRedactXml (payload impl : String) : Verdict :=
-  match Sx.parse payload, Sx.parse impl with
-  | some (.list [_, .list path, _]), some (.list [p, b]) =>
-    let one : Sx → Option (Bool × String) := fun
-      | .list [.atom _, .list [.atom "before", bf], .list [.atom "after", af], .list [.atom "decl", d], .list [.atom "leak", l]] =>
-        let want := markAt bf path
-        some (af.toStr == want.toStr && d.toStr == "true" && (!hasPath bf path || l.toStr == "false"), want.toStr)
-      | _ => none
-    match one p, one b with
-    | some (okp, w), some (okb, _) =>
-      let ok := okp && okb
-      { corr := ok, implSpec := ok, modelSpec := true, tags := [], nontrivial := true,
-        cls := s!"steps={path.length}", model := w,
-        spec := "plain and base64: the document reads as " ++ w ++ ", its declaration kept, the target's text gone" }
-    | _, _ => { corr := false, implSpec := false, modelSpec := true, tags := [], nontrivial := true, cls := "no-observation",
-                model := "-", spec := "the marker at the path and everything else as it was" }
-  | _, _ => .bad "bad-case"
-
 end KsVerif.Kfl.Macro
